@@ -121,10 +121,14 @@ Section Rotate.
       - right. rewrite castail_tg by assumption. fold q. rewrite Z.eqb_refl. reflexivity.
       - intros _. assumption.
       - apply (iv_trip c s gh A).
-      - intros p Hp. rewrite castail_tg, castail_toff by assumption. destruct (p =? q) eqn:E.
-        + intros _. destruct (empty_succ s gh A Htg) as (E1 & _). fold n in E1.
-          rewrite E1. cbn [chain]. unfold base. replace (n + 1 =? c_n0 c) with false by lia. reflexivity.
-        + apply (iv_chain c s gh A p Hp).
+      - intros g0 Hg0. destruct (iv_chain_all c s gh A g0 Hg0) as (hi & Hc & Hhi).
+        destruct (Z.eq_dec g0 (n + 1)) as [-> | Hne].
+        + destruct (empty_succ s gh A Htg) as (E1 & _). fold n in E1. exists 0. rewrite E1. split.
+          * cbn [chain]. unfold base. replace (n + 1 =? c_n0 c) with false by lia. reflexivity.
+          * intros p Hp Hq'. rewrite castail_tg in Hq' by assumption. rewrite castail_toff. destruct (p =? q) eqn:E; [reflexivity|].
+            exfalso. apply (no_tail_succ s gh A Htg p Hp). fold n. assumption.
+        + exists hi. split; [assumption|]. intros p Hp Hq'. rewrite castail_tg in Hq' by assumption. rewrite castail_toff.
+          destruct (p =? q) eqn:E; [lia | apply Hhi; assumption].
       - intros g0 Hg0. apply (iv_empty c s gh A g0). destruct Hg0 as [Hg0 | (Hg1 & Hg2)]; [left; assumption | right].
         fold n. split; [assumption|]. intros p Hp. pose proof (tg_window s gh p A Hp) as Hw. fold n in Hw.
         specialize (Hg2 p Hp). rewrite castail_tg in Hg2 by assumption. destruct (p =? q) eqn:E; [|assumption].
@@ -222,7 +226,7 @@ Section Rotate.
         + left. rewrite Htg. replace (n + 1 + 1) with (n + 2) by ring. pose proof (iv_prev c s gh A). fold n in H. lia.
         + rewrite Htg. replace (n + 1 + 1) with (n + 2) by ring. pose proof (iv_prev c s gh A). fold n in H. intros X. lia.
         + intros g0 Hg0. destruct (Z.eq_dec g0 n) as [-> | Hne]; [apply (iv_rot_trip c s gh A); assumption | apply (iv_trip c s gh A); fold n; lia].
-        + intros p Hp. rewrite Htg, Hto. apply (iv_chain c s gh A p Hp).
+        + intros g0 Hg0. apply (iv_chain_all c s gh A g0 Hg0).
         + intros g0 Hg0. apply (iv_empty c s gh A g0). destruct Hg0 as [Hg0 | (Hg1 & Hg2)]; [left; assumption | right].
           fold n. split; [lia | assumption].
         + intros p Hp. rewrite Htg, Hto. apply (iv_cleaned c s gh A p Hp).
@@ -274,7 +278,7 @@ Section Rotate.
         + apply (iv_next c s gh A).
         + intros X. destruct (iv_rot_trip c s gh A X) as (e & He & Hb). exists e. rewrite Hclaims. auto.
         + intros g0 Hg0. destruct (iv_trip c s gh A g0 Hg0) as (e & He & Hb). exists e. rewrite Hclaims. auto.
-        + intros p' Hp'. rewrite Htg, Hto. apply (iv_chain c s gh A p' Hp').
+        + intros g0 Hg0. apply (iv_chain_all c s gh A g0 Hg0).
         + intros g0 Hg0. destruct (iv_empty c s gh A g0) as (E1 & E2).
           { destruct Hg0 as [Hg0 | (Hg1 & Hg2)]; [left; assumption | right; split; assumption]. }
           split; [assumption|]. rewrite Hcl. destruct (c_n0 c <=? tg c s p) eqn:E3; cbn [andb]; [|assumption].
